@@ -14,7 +14,11 @@ import AlgoVerif.Proofs.C07LSD
 import AlgoVerif.Proofs.C07Q3String
 import AlgoVerif.Proofs.C07MsdString
 import AlgoVerif.Proofs.C07MsdWords
+import AlgoVerif.Proofs.C07Sub
+import AlgoVerif.Proofs.C07Fast
 import AlgoVerif.Proofs.C07Gen
+import AlgoVerif.Proofs.C07QuickGen
+import AlgoVerif.Proofs.C07RadixGen
 /-!
 # C07 — every sort returns the sorted permutation of its input
 
@@ -151,6 +155,74 @@ example : ∃ out, msdUint (Array.ofFn (n := 17) fun i => (UInt64.ofNat (i.val %
     out.toList = (Array.ofFn (n := 17) fun i => (UInt64.ofNat (i.val % 2) <<< 56) ||| UInt64.ofNat (17 - i.val)).toList.mergeSort uLe :=
   C07_msdUint _
 
+/-! ## a sort handed a sub-slice `a[lo:hi]` of a larger slice (`Model/C07Sub.lean`)
+
+The sorts work in place, so a caller may hand them a window of a larger backing array and, afterwards, another
+window that overlaps the first (the harness ops `sub` and `alias`). Whatever a sort guarantees about a whole slice
+(`R out in`: sorted permutation, or equality with the reference sort) it guarantees about the window, and every
+element outside the window is left alone — for every array, every window and every sort. -/
+
+/-- generic form: `f` returns `ok` on every input with an output of the same length that is `R`-related to the input -/
+theorem C07_subslice {α : Type} (R : Array α → Array α → Prop) (f : Array α → Outcome (Array α))
+    (hf : ∀ x, ∃ y, f x = .ok y ∧ y.size = x.size ∧ R y x)
+    (a : Array α) (lo hi : Nat) (h1 : lo ≤ hi) (h2 : hi ≤ a.size) :
+    ∃ out, onSub f a lo hi = .ok out ∧ out.size = a.size ∧
+      (∀ i, i < lo → out[i]? = a[i]?) ∧ (∀ i, hi ≤ i → out[i]? = a[i]?) ∧
+      R (out.extract lo hi) (a.extract lo hi) := onSub_spec R f hf a lo hi h1 h2
+
+/-- any sort that returns the sorted permutation of every slice (all of `C07_insertion … C07_heap`) does so on a window -/
+theorem C07_subslice_sorted {α : Type} (cmp : α → α → Int) (f : Array α → Outcome (Array α))
+    (hf : ∀ x, ∃ y, f x = .ok y ∧ IsSortOf cmp y x)
+    (a : Array α) (lo hi : Nat) (h1 : lo ≤ hi) (h2 : hi ≤ a.size) :
+    ∃ out, onSub f a lo hi = .ok out ∧ out.size = a.size ∧
+      (∀ i, i < lo → out[i]? = a[i]?) ∧ (∀ i, hi ≤ i → out[i]? = a[i]?) ∧
+      IsSortOf cmp (out.extract lo hi) (a.extract lo hi) := by
+  refine C07_subslice (IsSortOf cmp) f (fun x => ?_) a lo hi h1 h2
+  obtain ⟨y, h, hs⟩ := hf x
+  exact ⟨y, h, by simpa using hs.2.length_eq, hs⟩
+
+example : ∃ out, onSub (insertion exCmp) #[(9, 0), (5, 1), (3, 2), (2, 3), (4, 4), (0, 5)] 1 4 = .ok out ∧ out.size = 6 ∧
+    (∀ i, i < 1 → out[i]? = #[(9, 0), (5, 1), (3, 2), (2, 3), (4, 4), (0, 5)][i]?) ∧
+    (∀ i, 4 ≤ i → out[i]? = #[(9, 0), (5, 1), (3, 2), (2, 3), (4, 4), (0, 5)][i]?) ∧
+    IsSortOf exCmp (out.extract 1 4) (#[(9, 0), (5, 1), (3, 2), (2, 3), (4, 4), (0, 5)].extract 1 4) :=
+  C07_subslice_sorted exCmp _ (C07_insertion exCmp exCmp_tp) _ 1 4 (by decide) (by decide)
+
+example : onSub (insertion exCmp) #[(9, 0), (5, 1), (3, 2), (2, 3), (4, 4), (0, 5)] 1 4 =
+    .ok #[(9, 0), (3, 2), (5, 1), (2, 3), (4, 4), (0, 5)] := by decide
+
+/-- a radix sort on a window: the window equals the reference sort of what it held -/
+theorem C07_subslice_radix {α : Type} (le : α → α → Bool) (f : Array α → Outcome (Array α))
+    (hf : ∀ x, ∃ y, f x = .ok y ∧ y.toList = x.toList.mergeSort le)
+    (a : Array α) (lo hi : Nat) (h1 : lo ≤ hi) (h2 : hi ≤ a.size) :
+    ∃ out, onSub f a lo hi = .ok out ∧ out.size = a.size ∧
+      (∀ i, i < lo → out[i]? = a[i]?) ∧ (∀ i, hi ≤ i → out[i]? = a[i]?) ∧
+      (out.extract lo hi).toList = (a.extract lo hi).toList.mergeSort le := by
+  refine C07_subslice (fun y x => y.toList = x.toList.mergeSort le) f (fun x => ?_) a lo hi h1 h2
+  obtain ⟨y, h, hs⟩ := hf x
+  refine ⟨y, h, ?_, hs⟩
+  have := congrArg List.length hs
+  simpa using this
+
+example (a : Array UInt64) (lo hi : Nat) (h1 : lo ≤ hi) (h2 : hi ≤ a.size) :
+    ∃ out, onSub lsdInt a lo hi = .ok out ∧ out.size = a.size ∧
+      (∀ i, i < lo → out[i]? = a[i]?) ∧ (∀ i, hi ≤ i → out[i]? = a[i]?) ∧
+      (out.extract lo hi).toList = (a.extract lo hi).toList.mergeSort iLe :=
+  C07_subslice_radix iLe lsdInt C07_lsdInt a lo hi h1 h2
+
+/-! ## what the driver executes for `Merge` / `MergeRec` is the Model
+
+The Model's `copyRange` is `Array.ofFn` over the whole slice (convenient for the proofs above), which makes the
+*executable* `mergeBU` / `mergeRec` quadratic.  The correspondence driver therefore runs `mergeBUFast` / `mergeRecFast`
+(`Proofs/C07Fast.lean`: the same functions with an in-place copy of the merged range).  For every comparator, zero
+value and slice they are the functions `C07_merge` / `C07_mergeRec` are about. -/
+
+theorem C07_driver_merge_is_model_merge {α : Type} (cmp : α → α → Int) (zero : α) (a : Array α) :
+    mergeBUFast cmp zero a = mergeBU cmp zero a ∧ mergeRecFast cmp zero a = mergeRec cmp zero a :=
+  ⟨mergeBUFast_eq cmp zero a, mergeRecFast_eq cmp zero a⟩
+
+example : mergeBUFast exCmp (0, 0) #[(5, 0), (3, 1), (2, 2), (4, 3), (0, 4)] = .ok #[(3, 1), (0, 4), (4, 3), (5, 0), (2, 2)] ∧
+    mergeRecFast exCmp (0, 0) #[(5, 0), (3, 1), (2, 2), (4, 3), (0, 4)] = .ok #[(3, 1), (0, 4), (4, 3), (5, 0), (2, 2)] := by decide
+
 /-! ## the second tie: the Model REGENERATED from the source
 
 `AlgoVerif.Generated.Sort.*` (file `Generated/C07Gen.lean`) is produced from
@@ -250,3 +322,200 @@ theorem C07_generated_mergeRec {α : Type} [Inhabited α] (cmp : α → α → I
 example : ∃ out, MergeRec 6 #[(5, 0), (3, 1), (2, 2), (4, 3), (0, 4)] exCmp = .ok out ∧
     IsSortOf exCmp out #[(5, 0), (3, 1), (2, 2), (4, 3), (0, 4)] := C07_generated_mergeRec _ exCmp_tp _ 6 (by decide)
 example : MergeRec 3 #[(5, 0), (3, 1)] exCmp = .ok #[(3, 1), (5, 0)] := by decide
+
+/-! ### `sort/quick.go` and `sort/shuffle.go` (file `Generated/C07QuickGen.lean`)
+
+A `*rand.Rand` is a `Go.Rand` — the stream of its future draws and the number consumed; `r.Intn(n)` is the next
+draw reduced into `[0, n)` (`Model/GoRt.lean`).  The clock-seeded generator of `Quick` / `Select` is the parameter
+`rand : Nat → Int`, its stream; the statements hold for EVERY stream, with no hypothesis about it (the hand
+Model's `IntnContract` is proved of the induced `choiceOf`).  `quick` / `quick3Way` recurse on their fuel and pass
+the remaining fuel on, so `2·len(a) + 2` units are asked for (`len(a) + 1` levels of recursion, then `len(a) + 1`
+for the loops of the deepest call). -/
+
+theorem C07_generated_shuffle_refines {α : Type} [Inhabited α] (r : Go.Rand) (a : Array α) :
+    shuffle (choiceOf r a.size) a = .diverge ∨ shuffle (choiceOf r a.size) a = (Shuffle a r).map Prod.fst :=
+  shuffle_le r a
+
+/-- `Shuffle` yields a permutation, for every generator -/
+theorem C07_generated_shuffle {α : Type} [Inhabited α] (r : Go.Rand) (a : Array α) :
+    ∃ out r', Shuffle a r = .ok (out, r') ∧ out.toList.Perm a.toList := by
+  obtain ⟨out, h, p⟩ := C07_shuffle (choiceOf r a.size) a (choiceOf_contract r a.size)
+  have := Outcome.le.ok (C07_generated_shuffle_refines r a) h
+  cases hs : Shuffle a r with
+  | ok c => rw [hs] at this; cases this; exact ⟨c.1, c.2, rfl, p⟩
+  | panic => rw [hs] at this; cases this
+  | diverge => rw [hs] at this; cases this
+
+example : (Shuffle #[10, 20, 30, 40] (Go.Rand.new fun k => 5 * k + 3)).map Prod.fst = .ok #[40, 10, 20, 30] := by decide
+
+/-- the internal `partition(a, lo, hi, cmp)`: returns the new `a` and the pivot's index -/
+theorem C07_generated_partition_refines {α : Type} [Inhabited α] (cmp : α → α → Int) (a : Array α) (lo hi : Int)
+    (fuel : Nat) (hf : a.size + 1 ≤ fuel) :
+    C07.partition cmp a lo hi = .diverge ∨ C07.partition cmp a lo hi = Generated.Sort.partition fuel a lo hi cmp :=
+  partition_le cmp a lo hi fuel hf
+
+/-- the internal `quick(a, 0, len(a)-1, cmp)` -/
+theorem C07_generated_quickCore_refines {α : Type} [Inhabited α] (cmp : α → α → Int) (a : Array α) (fuel : Nat)
+    (hf : 2 * a.size + 2 ≤ fuel) :
+    quickCore cmp a = .diverge ∨ quickCore cmp a = Generated.Sort.quick fuel a 0 ((a.size : Int) - 1) cmp := by
+  obtain ⟨d, rfl⟩ : ∃ d, fuel = 2 * a.size + 2 + d := ⟨fuel - (2 * a.size + 2), by omega⟩
+  exact quickCore_le cmp a d
+
+theorem C07_generated_quick_refines {α : Type} [Inhabited α] (cmp : α → α → Int) (rand : Nat → Int) (a : Array α)
+    (fuel : Nat) (hf : 2 * a.size + 2 ≤ fuel) :
+    C07.quick (choiceOf (Go.Rand.new rand) a.size) cmp a = .diverge ∨
+      C07.quick (choiceOf (Go.Rand.new rand) a.size) cmp a = Quick fuel rand a cmp := by
+  obtain ⟨d, rfl⟩ : ∃ d, fuel = 2 * a.size + 2 + d := ⟨fuel - (2 * a.size + 2), by omega⟩
+  exact quick_pub_le cmp rand a d
+
+/-- `Quick` sorts, for every stream of its clock-seeded generator -/
+theorem C07_generated_quick {α : Type} [Inhabited α] (cmp : α → α → Int) (tp : TotalPreorder cmp) (rand : Nat → Int)
+    (a : Array α) (fuel : Nat) (hf : 2 * a.size + 2 ≤ fuel) :
+    ∃ out, Quick fuel rand a cmp = .ok out ∧ IsSortOf cmp out a := by
+  obtain ⟨out, h, s⟩ := C07_quick cmp tp _ a (choiceOf_contract (Go.Rand.new rand) a.size)
+  exact ⟨out, Outcome.le.ok (C07_generated_quick_refines cmp rand a fuel hf) h, s⟩
+
+example : Quick 10 (fun k => 5 * k + 3) #[(5, 0), (3, 1), (2, 2), (4, 3)] exCmp = .ok #[(3, 1), (4, 3), (2, 2), (5, 0)] := by decide
+
+theorem C07_generated_select_refines {α : Type} [Inhabited α] (cmp : α → α → Int) (rand : Nat → Int) (a : Array α)
+    (k : Int) (fuel : Nat) (hf : a.size + 1 ≤ fuel) :
+    C07.select (choiceOf (Go.Rand.new rand) a.size) cmp a k = .diverge ∨
+      C07.select (choiceOf (Go.Rand.new rand) a.size) cmp a k = Select fuel rand a k cmp := by
+  obtain ⟨d, rfl⟩ : ∃ d, fuel = a.size + 1 + d := ⟨fuel - (a.size + 1), by omega⟩
+  exact select_le cmp rand a k d
+
+/-- `Select(a, k)` returns an element of rank `k` and leaves a permutation, for every stream of its generator -/
+theorem C07_generated_select {α : Type} [Inhabited α] (cmp : α → α → Int) (tp : TotalPreorder cmp) (rand : Nat → Int)
+    (a : Array α) (k : Nat) (hk : k < a.size) (fuel : Nat) (hf : a.size + 1 ≤ fuel) :
+    ∃ out v, Select fuel rand a (k : Int) cmp = .ok (out, v) ∧ out.toList.Perm a.toList ∧ HasRank cmp a.toList k v := by
+  obtain ⟨out, v, h, p, r⟩ := C07_select cmp tp _ a (choiceOf_contract (Go.Rand.new rand) a.size) k hk
+  exact ⟨out, v, Outcome.le.ok (C07_generated_select_refines cmp rand a k fuel hf) h, p, r⟩
+
+example : ∃ out v, Select 6 (fun k => 7 * k + 1) #[(5, 0), (3, 1), (2, 2), (4, 3), (0, 4)] ((2 : Nat) : Int) exCmp = .ok (out, v) ∧
+    out.toList.Perm [(5, 0), (3, 1), (2, 2), (4, 3), (0, 4)] ∧ HasRank exCmp [(5, 0), (3, 1), (2, 2), (4, 3), (0, 4)] 2 v :=
+  C07_generated_select _ exCmp_tp _ _ 2 (by decide) 6 (by decide)
+
+theorem C07_generated_quick3way_refines {α : Type} [Inhabited α] (cmp : α → α → Int) (a : Array α) (fuel : Nat)
+    (hf : 2 * a.size + 2 ≤ fuel) : C07.quick3Way cmp a = .diverge ∨ C07.quick3Way cmp a = Quick3Way fuel a cmp := by
+  obtain ⟨d, rfl⟩ : ∃ d, fuel = 2 * a.size + 2 + d := ⟨fuel - (2 * a.size + 2), by omega⟩
+  exact quick3Way_pub_le cmp a d
+
+theorem C07_generated_quick3way {α : Type} [Inhabited α] (cmp : α → α → Int) (tp : TotalPreorder cmp) (a : Array α)
+    (fuel : Nat) (hf : 2 * a.size + 2 ≤ fuel) : ∃ out, Quick3Way fuel a cmp = .ok out ∧ IsSortOf cmp out a := by
+  obtain ⟨out, h, s⟩ := C07_quick3way cmp tp a
+  exact ⟨out, Outcome.le.ok (C07_generated_quick3way_refines cmp a fuel hf) h, s⟩
+
+example : Quick3Way 12 #[(5, 0), (3, 1), (2, 2), (4, 3), (0, 4)] exCmp = .ok #[(3, 1), (0, 4), (4, 3), (5, 0), (2, 2)] := by decide
+
+/-! ### `radixsort/{radixsort,lsd,msd,quick}.go` (file `Generated/C07RadixGen.lean`)
+
+`uint` is `UInt64`, a string is the list of its bytes — as in the hand Model.  A (signed) `int` is the unbounded `Int`
+of the translator, with Go's arithmetic `>>` and the 64-bit `&`: the statements about `LSDInt` / `MSDInt` are for the
+slice `a.map toI` of the two's-complement values of the hand Model's words `a`, and their result is the image of the
+hand Model's.  `shuffle` draws from math/rand's package-level generator, an extra parameter `g : Go.Rand` of the
+generated `Quick3WayString`; the statements hold for every state of it.  The counted loops of the radix sorts need no
+fuel; the stated fuels cover the recursion (digits, `maxLen`) and the insertion-sort cutoff. -/
+
+open AlgoVerif.C07.RGen
+
+theorem C07_generated_lsdString_refines (a : Array (List UInt8)) (w : Int) :
+    lsdString a w = .diverge ∨ lsdString a w = Generated.Radix.LSDString a w := LSDString_le a w
+
+/-- `LSDString(a, w)`: every key has at least `w` bytes ⇒ the stable sort by the first `w` bytes -/
+theorem C07_generated_lsdString_prefix (a : Array (List UInt8)) (w : Nat) (hw : ∀ s, s ∈ a.toList → w ≤ s.length) :
+    ∃ out, Generated.Radix.LSDString a (w : Int) = .ok out ∧ out.toList = a.toList.mergeSort (prefixLe w) := by
+  obtain ⟨out, h, s⟩ := C07_lsdString_prefix a w hw
+  exact ⟨out, Outcome.le.ok (C07_generated_lsdString_refines a w) h, s⟩
+
+theorem C07_generated_lsdString (a : Array (List UInt8)) (w : Nat) (hw : ∀ s, s ∈ a.toList → s.length = w) :
+    ∃ out, Generated.Radix.LSDString a (w : Int) = .ok out ∧ out.toList = a.toList.mergeSort bytesLe := by
+  obtain ⟨out, h, s⟩ := C07_lsdString a w hw
+  exact ⟨out, Outcome.le.ok (C07_generated_lsdString_refines a w) h, s⟩
+
+example : ∃ out, Generated.Radix.LSDString #[[0xff, 0x61], [0x00, 0xff], [0x61, 0x61]] ((2 : Nat) : Int) = .ok out ∧
+    out.toList = [[0xff, 0x61], [0x00, 0xff], [0x61, 0x61]].mergeSort bytesLe :=
+  C07_generated_lsdString _ 2 (by decide)
+
+theorem C07_generated_lsdUint_refines (a : Array UInt64) :
+    lsdUint a = .diverge ∨ lsdUint a = Generated.Radix.LSDUint a := LSDUint_le a
+
+theorem C07_generated_lsdUint (a : Array UInt64) :
+    ∃ out, Generated.Radix.LSDUint a = .ok out ∧ out.toList = a.toList.mergeSort uLe := by
+  obtain ⟨out, h, s⟩ := C07_lsdUint a
+  exact ⟨out, Outcome.le.ok (C07_generated_lsdUint_refines a) h, s⟩
+
+theorem C07_generated_lsdInt_refines (a : Array UInt64) :
+    (lsdInt a).map (fun b => b.map toI) = .diverge ∨
+      (lsdInt a).map (fun b => b.map toI) = Generated.Radix.LSDInt (a.map toI) := LSDInt_le a
+
+/-- `LSDInt` on the `int`s `toI a[0], toI a[1], …` returns the `int`s of the words sorted by the `int` order -/
+theorem C07_generated_lsdInt (a : Array UInt64) :
+    ∃ out : Array UInt64, Generated.Radix.LSDInt (a.map toI) = .ok (out.map toI) ∧ out.toList = a.toList.mergeSort iLe := by
+  obtain ⟨out, h, s⟩ := C07_lsdInt a
+  exact ⟨out, Outcome.le.ok (C07_generated_lsdInt_refines a) (by simp [h]), s⟩
+
+example : ∃ out : Array UInt64, Generated.Radix.LSDInt ((#[3, 0 - 1, 256, 0 - 256, 0] : Array UInt64).map toI) = .ok (out.map toI) ∧
+    out.toList = [3, 0 - 1, 256, 0 - 256, 0].mergeSort iLe := C07_generated_lsdInt _
+
+theorem C07_generated_msdString_refines (a : Array (List UInt8)) (fuel : Nat) (hf : maxLen a + a.size + 3 ≤ fuel) :
+    msdString a = .diverge ∨ msdString a = Generated.Radix.MSDString fuel a := by
+  obtain ⟨e, rfl⟩ : ∃ e, fuel = maxLen a + 2 + (a.size + 1) + e := ⟨fuel - (maxLen a + 2 + (a.size + 1)), by omega⟩
+  exact MSDString_le a e
+
+theorem C07_generated_msdString (a : Array (List UInt8)) (fuel : Nat) (hf : maxLen a + a.size + 3 ≤ fuel) :
+    ∃ out, Generated.Radix.MSDString fuel a = .ok out ∧ out.toList = a.toList.mergeSort bytesLe := by
+  obtain ⟨out, h, s⟩ := C07_msdString a
+  exact ⟨out, Outcome.le.ok (C07_generated_msdString_refines a fuel hf) h, s⟩
+
+theorem C07_generated_msdUint_refines (a : Array UInt64) (fuel : Nat) (hf : a.size + 10 ≤ fuel) :
+    msdUint a = .diverge ∨ msdUint a = Generated.Radix.MSDUint fuel a := by
+  obtain ⟨e, rfl⟩ : ∃ e, fuel = 8 + 1 + (a.size + 1) + e := ⟨fuel - (8 + 1 + (a.size + 1)), by omega⟩
+  exact MSDUint_le a e
+
+theorem C07_generated_msdUint (a : Array UInt64) (fuel : Nat) (hf : a.size + 10 ≤ fuel) :
+    ∃ out, Generated.Radix.MSDUint fuel a = .ok out ∧ out.toList = a.toList.mergeSort uLe := by
+  obtain ⟨out, h, s⟩ := C07_msdUint a
+  exact ⟨out, Outcome.le.ok (C07_generated_msdUint_refines a fuel hf) h, s⟩
+
+theorem C07_generated_msdInt_refines (a : Array UInt64) (fuel : Nat) (hf : a.size + 10 ≤ fuel) :
+    (msdInt a).map (fun b => b.map toI) = .diverge ∨
+      (msdInt a).map (fun b => b.map toI) = Generated.Radix.MSDInt fuel (a.map toI) := by
+  obtain ⟨e, rfl⟩ : ∃ e, fuel = 8 + 1 + (a.size + 1) + e := ⟨fuel - (8 + 1 + (a.size + 1)), by omega⟩
+  exact MSDInt_le a e
+
+theorem C07_generated_msdInt (a : Array UInt64) (fuel : Nat) (hf : a.size + 10 ≤ fuel) :
+    ∃ out : Array UInt64, Generated.Radix.MSDInt fuel (a.map toI) = .ok (out.map toI) ∧ out.toList = a.toList.mergeSort iLe := by
+  obtain ⟨out, h, s⟩ := C07_msdInt a
+  exact ⟨out, Outcome.le.ok (C07_generated_msdInt_refines a fuel hf) (by simp [h]), s⟩
+
+/-- 17 words (above the insertion-sort cutoff) with both signs, run on the generated definitions -/
+example : ∃ out : Array UInt64, Generated.Radix.MSDInt 27 ((Array.ofFn (n := 17) fun i => (UInt64.ofNat (i.val % 2) <<< 63) ||| UInt64.ofNat (17 - i.val)).map toI) =
+      .ok (out.map toI) ∧
+    out.toList = (Array.ofFn (n := 17) fun i => (UInt64.ofNat (i.val % 2) <<< 63) ||| UInt64.ofNat (17 - i.val)).toList.mergeSort iLe :=
+  C07_generated_msdInt _ 27 (by simp)
+
+theorem C07_generated_q3String_refines (g : Go.Rand) (a : Array (List UInt8)) (fuel : Nat)
+    (hf : 2 * a.size + maxLen a + 3 ≤ fuel) :
+    q3String (choiceOf g a.size) a = .diverge ∨
+      q3String (choiceOf g a.size) a = (Generated.Radix.Quick3WayString fuel a g).map Prod.fst := by
+  refine Quick3WayString_le g a fuel fun a1 h1 => ?_
+  obtain ⟨out, h2, p⟩ := C07_shuffle (choiceOf g a.size) a (choiceOf_contract g a.size)
+  have e : out = a1 := by rw [h2] at h1; exact Outcome.ok.inj h1
+  subst e
+  have hs : out.size = a.size := by simpa using p.length_eq
+  have hm := maxLen_perm p
+  omega
+
+/-- `Quick3WayString` sorts, for every state of math/rand's package-level generator -/
+theorem C07_generated_q3String (g : Go.Rand) (a : Array (List UInt8)) (fuel : Nat)
+    (hf : 2 * a.size + maxLen a + 3 ≤ fuel) :
+    ∃ out g', Generated.Radix.Quick3WayString fuel a g = .ok (out, g') ∧ out.toList = a.toList.mergeSort bytesLe := by
+  obtain ⟨out, h, s⟩ := C07_q3String (choiceOf g a.size) a (choiceOf_contract g a.size)
+  have := Outcome.le.ok (C07_generated_q3String_refines g a fuel hf) h
+  cases hq : Generated.Radix.Quick3WayString fuel a g with
+  | ok c => rw [hq] at this; cases this; exact ⟨c.1, c.2, rfl, s⟩
+  | panic => rw [hq] at this; cases this
+  | diverge => rw [hq] at this; cases this
+
+example : (Generated.Radix.Quick3WayString 13 #[[0x62], [0x61, 0x62], [], [0x61]] (Go.Rand.new fun k => 3 * k + 1)).map Prod.fst =
+    .ok #[[], [0x61], [0x61, 0x62], [0x62]] := by decide
